@@ -76,12 +76,12 @@ ItemVal(j) == LET it == Item(j) IN
   [vk |-> env[it.vk].vk, sig |-> env[it.sig], msg |-> it.msg]
 Valid(j) == LET v == ItemVal(j) IN
   ~IsIdent(v.sig.R) /\ SchnorrHolds(v.sig.R, v.sig.z, ro[KeyH2(v.sig.R, v.vk, v.msg)], v.vk)
-NoIdent == \A j \in 1..sc.n : ~IsIdent(env[<<"sig", j>>].R)
+NoIdentR == \A j \in 1..sc.n : ~IsIdent(env[<<"sig", j>>].R)
 
 \* the empty batch is rejected; a batch of valid items is accepted whatever the blinders
 InvAccept ==
   AtEnd => /\ (sc.n = 0) => ~last.res.ok
-           /\ (sc.n > 0 /\ NoIdent /\ \A j \in 1..sc.n : Valid(j)) => last.res.ok
+           /\ (sc.n > 0 /\ NoIdentR /\ \A j \in 1..sc.n : Valid(j)) => last.res.ok
 
 \* single-item verification agrees with ordinary verification
 InvSingles ==
@@ -97,7 +97,7 @@ AcceptingVectors ==
 RECURSIVE IPow(_,_)
 IPow(a, k) == IF k = 0 THEN 1 ELSE a * IPow(a, k - 1)
 InvSoundness ==
-  (AtEnd /\ sc.n > 0 /\ NoIdent /\ \E j \in 1..sc.n : ~Valid(j)) => AcceptingVectors = IPow(Q, sc.n - 1)
+  (AtEnd /\ sc.n > 0 /\ NoIdentR /\ \E j \in 1..sc.n : ~Valid(j)) => AcceptingVectors = IPow(Q, sc.n - 1)
 
 Emit == (EMIT /\ pc[1] = "done") =>
    PrintT(ToJson(Script("C19") @@ [probe |-> "batch",
